@@ -10,6 +10,9 @@
 (*                   declarations of m and import aliases of m                *)
 (*   alias[m][a]     <<>> (unused) or <<t, n>>: `import { n as a } from t`    *)
 (*   stars[m]        sequence of modules re-exported with `export * from`     *)
+(*   modrefs[m][d]   modules the declaration mentions as a whole:             *)
+(*                   `typeof import("./t.ts")` (requests every export of t,   *)
+(*                   `default` included)                                      *)
 EXTENDS Naturals, Sequences, FiniteSets
 
 CONSTANTS Mods, Entry, Decls, AliasIds, Names
@@ -21,6 +24,7 @@ exported == prog.exported
 refs == prog.refs
 alias == prog.alias
 stars == prog.stars
+modrefs == prog.modrefs
 
 OwnNames(m) == { exported[m][d] : d \in Decls } \ {"-"}
 OwnNoDefault(m) == OwnNames(m) \ {"default"}
@@ -78,7 +82,9 @@ Analyze(m, ex) ==
       viaAlias == { <<alias[m][a][1], Sub({alias[m][a][2]})>> : a \in AliasesOf(m, ds) }
       viaStar == IF ex.k \in {"star", "stard"} THEN { <<stars[m][i], Star>> : i \in DOMAIN stars[m] }
                  ELSE Forward(m, 1, ex.n \ OwnNames(m))
-  IN <<ds, viaAlias \cup viaStar>>
+      \* an import type without member path asks for the whole module, default included (range_finder 1115-1133)
+      viaModRef == { <<t, StarD>> : t \in UNION { modrefs[m][d] : d \in ds } }
+  IN <<ds, viaAlias \cup viaStar \cup viaModRef>>
 
 RECURSIVE AddAll(_, _, _)
 AddAll(p, t, reqs) ==
@@ -104,20 +110,23 @@ Quiescent == DOMAIN pt = {}
 (***************************************************************************)
 LocalRefs(p) == { <<p[1], d>> : d \in refs[p[1]][p[2]] \cap Decls }
 AliasWants(p) == { <<alias[p[1]][a][1], alias[p[1]][a][2]>> : a \in { x \in refs[p[1]][p[2]] \cap AliasIds : alias[p[1]][x] # <<>> } }
+RECURSIVE ReachStar(_)
+ReachStar(S) == LET T == S \cup UNION { StarSet(m) : m \in S } IN IF T = S THEN S ELSE ReachStar(T)
+\* wanting a whole module = all its own names (default included) and the non-default names of what it star re-exports
+WholeModule(t) == { <<t, n>> : n \in OwnNames(t) } \cup UNION { { <<x, n>> : n \in OwnNoDefault(x) } : x \in ReachStar({t}) \ {t} }
 StepD(wants, P) ==
   LET fromWants == { <<w[1], DeclOf(w[1], w[2])>> : w \in { x \in wants : x[2] \in OwnNames(x[1]) } }
       P2 == P \cup fromWants \cup UNION { LocalRefs(p) : p \in P }
-      viaAlias == UNION { AliasWants(p) : p \in P }
+      viaAlias == UNION { AliasWants(p) : p \in P } \cup UNION { UNION { WholeModule(t) : t \in modrefs[p[1]][p[2]] } : p \in P }
       forwarded == UNION { UNION { { <<fw[1], n>> : n \in fw[2].n } : fw \in Forward(w[1], 1, {w[2]}) }
                            : w \in { x \in wants : x[2] \notin OwnNames(x[1]) } }
   IN <<wants \cup viaAlias \cup forwarded, P2>>
 RECURSIVE FixD(_, _)
 FixD(wants, P) == LET s == StepD(wants, P) IN IF s = <<wants, P>> THEN s ELSE FixD(s[1], s[2])
-RECURSIVE ReachStar(_)
-ReachStar(S) == LET T == S \cup UNION { StarSet(m) : m \in S } IN IF T = S THEN S ELSE ReachStar(T)
 InitialWants == { <<Entry, n>> : n \in OwnNames(Entry) }
                 \cup UNION { { <<m, n>> : n \in OwnNoDefault(m) } : m \in ReachStar({Entry}) \ {Entry} }
 PublicSet == FixD(InitialWants, {})[2]
 \* modules that get an emitted module: the entry, everything star-reachable, everything some wanted name lives in
 TracedSet == ReachStar({Entry}) \cup { w[1] : w \in FixD(InitialWants, {})[1] }
+             \cup ReachStar(UNION { modrefs[p[1]][p[2]] : p \in PublicSet })
 =============================================================================
